@@ -330,8 +330,28 @@ def run_one(specs, solo, segments, timeout=60.0) -> dict:
                 parks=r["parks"], wall=round(time.time() - t0, 4), cpu=round(time.process_time() - c0, 4))
 
 
+_WARM: set = set()
+
+
+def _warm_up(name, specs):
+    """once per worker process and document set: encode every document alone, untraced, so that whatever the library
+    imports or initialises lazily on first use is done before a thread can be parked in the middle of it (a thread
+    parked inside an import holds the module lock and the other thread would block on it for as long as the park
+    lasts — an artefact of parking, not an interference between encodes)"""
+    if name in _WARM:
+        return
+    _WARM.add(name)
+    with tempfile.TemporaryDirectory(prefix="rtfv_c15w_") as wd, contextlib.redirect_stdout(io.StringIO()):
+        for d in _build_all(specs, wd):
+            try:
+                d.rtf_encode()
+            except Exception:  # noqa: BLE001
+                pass
+
+
 def _sched_worker(task):
     base = _BASE[task["set"]]
+    _warm_up(task["set"], base["specs"])
     return run_one(base["specs"], base["solo"], task["segments"])
 
 
